@@ -552,7 +552,7 @@ def designers_stage(c, judge):
 
 
 # ------------------------------------------------------------------ end to end through the service
-def run_study(c, judge, algo, space, rounds, counts, defaults=None, goal='MAXIMIZE', note='', infeasible_rate=0.25):
+def run_study(c, judge, algo, space, rounds, counts, defaults=None, goal='MAXIMIZE', note='', infeasible_rate=0.25, sv=None):
   from vcheck import svc
   from vizier import pyvizier as vz
   from vizier._src.pyvizier.oss import proto_converters as pc
@@ -561,7 +561,15 @@ def run_study(c, judge, algo, space, rounds, counts, defaults=None, goal='MAXIMI
   problem = cd.build_problem(vz, space, (('obj', goal),), defaults)
   cfg = sc.StudyConfig.from_problem(problem)
   cfg.algorithm = algo
-  sv = svc.make_servicer('ram')
+  if sv is None:
+    sv = svc.make_servicer('ram')
+  else:
+    # a long-lived server: the study NAME is re-used (deleted, created again with another space), so anything the
+    # server or its algorithms remember per study name is stale
+    try:
+      sv.DeleteStudy(vsp.DeleteStudyRequest(name='owners/o/studies/s'))
+    except Exception:  # pylint: disable=broad-except
+      pass
   study = svc.create_study(sv, spec=cfg.to_proto())
   outcome = {'suggested': 0, 'refused': None}
   for r in range(rounds):
@@ -630,6 +638,14 @@ def service_stage(c, judge):
     for algo in FAST_ALGOS[:3] if quick else FAST_ALGOS:
       out = run_study(c, judge, algo, twin, 2, [c.rng.randrange(1, 6) for _ in range(2)], note=':twin-study')
       record(algo, out, twin)
+    # one long-lived server, one study name: the space, its twin, then an unrelated space
+    from vcheck import svc as _svc
+    other = cd.gen_space(c.rng, f32=True, max_params=4, max_int_width=15)
+    for algo in (FAST_ALGOS[1:4] if quick else FAST_ALGOS):
+      shared = _svc.make_servicer('ram')
+      for sp, nt in ((space, ':recreated-0'), (twin, ':recreated-twin'), (other, ':recreated-other')):
+        out = run_study(c, judge, algo, sp, 2, [c.rng.randrange(1, 4) for _ in range(2)], note=nt, sv=shared)
+        record(algo, out, sp)
   # ranges only float64 can hold (a bound above the float32 maximum, a width that overflows in float32, a LOG
   # range below the float32 subnormals): every algorithm must refuse them or answer inside the space
   extreme = [
